@@ -679,7 +679,7 @@ func main() {
 			"the virtual-time budget is 20000 + end of the last stall + 4 x messages x (max flits+1) x (switches+2) x (latency+8) cycles",
 		},
 		Plan: func(tier string, seed int64) []kit.Batch {
-			n, reps, msgs := 36, 1, 400
+			n, reps, msgs := 60, 1, 400
 			if tier == "thorough" {
 				n, reps, msgs = 300, 4, 600
 			}
